@@ -47,8 +47,8 @@ theorem searchLt_cum (u S : ℝ) (hS : 0 < S) (x : ℝ) (post : List ℝ) : ∀ 
     (searchLt u ((cumSumFrom acc (pre ++ x :: post)).map (· / S)) i0 = some (i0 + pre.length) ↔
       (acc + pre.sum) / S ≤ u ∧ u < (acc + pre.sum + x) / S)
   | [], acc, i0, _, hacc => by
-    simp only [List.nil_append, cumSumFrom, sadd, List.map_cons, sdiv, searchLt, ScalarReal.ltb_iff, List.length_nil,
-      Nat.add_zero, List.sum_nil, add_zero]
+    simp only [List.nil_append, cumSumFrom, sadd, List.map_cons, searchLt, ScalarReal.ltb_iff, List.length_nil,
+      List.sum_nil, add_zero]
     by_cases h : u < (acc + x) / S
     · simp [h, hacc]
     · simp only [h, if_false, and_false, iff_false]
@@ -59,7 +59,7 @@ theorem searchLt_cum (u S : ℝ) (hS : 0 < S) (x : ℝ) (post : List ℝ) : ∀ 
     have hy : 0 ≤ y := hpre y List.mem_cons_self
     have hpre' : ∀ z ∈ pre, 0 ≤ z := fun z hz => hpre z (List.mem_cons_of_mem _ hz)
     have hps : 0 ≤ pre.sum := List.sum_nonneg hpre'
-    simp only [List.cons_append, cumSumFrom, sadd, List.map_cons, sdiv, searchLt, ScalarReal.ltb_iff, List.length_cons, List.sum_cons]
+    simp only [List.cons_append, cumSumFrom, sadd, List.map_cons, searchLt, ScalarReal.ltb_iff, List.length_cons, List.sum_cons]
     by_cases h : u < (acc + y) / S
     · simp only [h, if_true, Option.some.injEq]
       constructor
@@ -91,7 +91,7 @@ theorem weightedIndex_law (pre : List ℝ) (x : ℝ) (post : List ℝ) (u : ℝ)
     simp only [cumSum_real, this, hSdef]
   have hpre : ∀ y ∈ pre, 0 ≤ y := fun y hy => hw y (List.mem_append_left _ hy)
   have key := searchLt_cum u S hS x post pre 0 0 hpre (by simpa using hu0)
-  simp only [zero_add, Nat.zero_add] at key
+  simp only [zero_add] at key
   have hwi : weightedIndex w.length w u = weightedPos w.length ((cumSum w).map (· / S)) u := by
     simp only [weightedIndex, normalize_ok hcne, hlast]
   have htake : List.take w.length ((cumSum w).map (· / S)) = (cumSumFrom (0:ℝ) w).map (· / S) := by
@@ -191,7 +191,7 @@ theorem pickFromCumSum_decomp (pre : List ℝ) (x : ℝ) (post : List ℝ) (u : 
       rw [← key, hs]; simp
     | none =>
       have hall := (searchLe_none_iff u _ 0).mp hs
-      simp only [Except.ok.injEq, List.length_append, List.length_cons, List.length_singleton]
+      simp only [Except.ok.injEq, List.length_append, List.length_cons]
       constructor
       · intro hi; omega
       · rintro ⟨_, hx⟩
@@ -269,7 +269,7 @@ theorem sumFromZero_real (l : List ℝ) : sumFromZero l = l.sum := by
   have : ∀ (acc : ℝ), List.foldl (fun x1 x2 => x1 + x2) acc l = acc + l.sum := by
     induction l with
     | nil => intro acc; simp
-    | cons y ys ih => intro acc; simp only [List.foldl_cons, sadd, List.sum_cons]; rw [ih]; ring
+    | cons y ys ih => intro acc; simp only [List.foldl_cons, List.sum_cons]; rw [ih]; ring
   simpa using this 0
 
 /-- `multinomialState` on `probs = pre ++ x :: post` -/
@@ -279,7 +279,7 @@ theorem multinomialState_decomp (pre : List ℝ) (x : ℝ) (post : List ℝ) (r 
       (pre = [] ∨ pre.sum / (pre ++ x :: post).sum < r) ∧ r ≤ (pre.sum + x) / (pre ++ x :: post).sum := by
   have hpre : ∀ y ∈ pre, 0 ≤ y := fun y hy => hw y (List.mem_append_left _ hy)
   have key := invCdf_decomp (pre ++ x :: post).sum r hS x post pre 0 0 hpre
-  simp only [zero_add, Nat.zero_add] at key
+  simp only [zero_add] at key
   unfold multinomialState
   rw [sumFromZero_real]
   simp only [ScalarReal.ofInt_eq, Int.cast_zero]
